@@ -1,9 +1,10 @@
 (* C06/PropertiesExt.v — the property theorems of C06 for the extension helpers
    that block on a correlated reply, and nothing else.
 
-   Receipts (receipts/receipts.go, repaired: [rx_step true]; pinned: [rx_step
-   false]), MUC join/leave (muc/muc.go, muc/room.go, pinned behaviour) and the
-   in-band bytestream reader (ibb/conn.go, ibb/ibb.go, pinned behaviour).  The
+   Receipts (receipts/receipts.go: [rx_step true]; pinned design: [rx_step
+   false]), MUC join/leave (muc/muc.go, muc/room.go: [muc_step true]; pinned
+   design: [muc_step false]) and the in-band bytestream reader (ibb/conn.go,
+   ibb/ibb.go: [ibbf_step]; pinned design: [ibb_step]).  The
    theorems quantify over every label sequence of the transition systems of
    C06/ModelExt.v: any number of senders / Leave calls / Read calls, any order
    and content of the peer's elements, any placement of cancellation. *)
@@ -95,20 +96,20 @@ Proof. exact rx_pinned_stall. Qed.
 Print Assumptions C06_receipts_handler_progress_pinned_refuted.
 
 (* ====================================================================== *)
-(* MUC join / leave (pinned behaviour)                                     *)
+(* MUC join / leave                                                        *)
 (* ====================================================================== *)
 
-Theorem C06_muc_at_most_one_outcome : forall tr s s' i c o,
-  run muc_step s tr = Some s' -> nth_error (mu_calls s) i = Some c -> m_pc c = MRet o ->
+Theorem C06_muc_at_most_one_outcome : forall fx tr s s' i c o,
+  run (muc_step fx) s tr = Some s' -> nth_error (mu_calls s) i = Some c -> m_pc c = MRet o ->
   exists c', nth_error (mu_calls s') i = Some c' /\ m_pc c' = MRet o /\ m_kind c' = m_kind c.
-Proof. exact muc_ret_stable_run. Qed.
+Proof. intros fx tr. exact (muc_ret_stable_run fx tr). Qed.
 Print Assumptions C06_muc_at_most_one_outcome.
 
 (* joined: only the join attempt; left: only a Leave call and only after the
    room's unavailable presence was handled; a stanza error only when an error
    reply was handed to the call; the context error only after cancellation *)
-Theorem C06_muc_outcome_is_own_presence_or_ctx_error : forall tr s i c o,
-  run muc_step muc_init tr = Some s -> nth_error (mu_calls s) i = Some c -> m_pc c = MRet o ->
+Theorem C06_muc_outcome_is_own_presence_or_ctx_error : forall fx tr s i c o,
+  run (muc_step fx) muc_init tr = Some s -> nth_error (mu_calls s) i = Some c -> m_pc c = MRet o ->
   match o with
   | MCtxErr => m_canc c = true
   | MErr => m_err c = true
@@ -121,130 +122,150 @@ Print Assumptions C06_muc_outcome_is_own_presence_or_ctx_error.
 (* The presence handler never stalls the serve loop for good: it is idle, can
    step, or waits for the join call, which can step (enter its select, after
    which the hand-off is enabled) or whose context is done (skip). *)
-Theorem C06_muc_handler_progress : forall tr s,
-  run muc_step muc_init tr = Some s -> muc_handler_waits s.
+Theorem C06_muc_handler_progress : forall fx tr s,
+  run (muc_step fx) muc_init tr = Some s -> muc_handler_waits fx s.
 Proof. exact muc_handler_waits_run. Qed.
 Print Assumptions C06_muc_handler_progress.
 
-Theorem C06_muc_call_progress : forall s i c,
+Theorem C06_muc_call_progress : forall fx s i c,
   nth_error (mu_calls s) i = Some c ->
   match m_pc c with
-  | MSpawned => muc_enabled s (MEnter i)
-  | MWait => (m_canc c = true -> muc_enabled s (MCtx i)) /\ (m_err c = true -> muc_enabled s (MErrRecv i))
+  | MSpawned => muc_enabled fx s (MEnter i)
+  | MWait => (m_canc c = true -> muc_enabled fx s (MCtx i)) /\ (m_err c = true -> muc_enabled fx s (MErrRecv i))
   | MRet _ => True
   end.
 Proof. exact muc_call_progress. Qed.
 Print Assumptions C06_muc_call_progress.
 
-(* The full claim for Leave — "the call ends with the room's unavailable
-   presence or its context error, whichever comes first" — in the form: a Leave
-   call in progress when the room's unavailable presence is handled returns
-   without needing its context. *)
-Definition C06_muc_leave_statement : Prop :=
-  forall tr s i c, run muc_step muc_init tr = Some s ->
-    nth_error (mu_calls s) i = Some c -> m_kind c = MLeave -> m_pc c = MWait ->
-    mu_gone s = true -> mu_h s = MHIdle -> m_canc c = true \/ m_err c = true.
+(* The departure notification is never dropped by the code ... *)
+Theorem C06_muc_depart_never_dropped : forall tr s,
+  run (muc_step true) muc_init tr = Some s -> mu_lost s = 0.
+Proof. exact muc_never_lost_run. Qed.
+Print Assumptions C06_muc_depart_never_dropped.
 
-(* It is false of the pinned code: the notification is a non-blocking send on
-   an unbuffered channel, dropped when the caller has not reached its select;
-   from then on only the call's own context or an error reply ends the call. *)
-Theorem C06_muc_leave_refuted :
-  exists s, run muc_step muc_init lost_depart_trace = Some s /\ leave_stuck s 1 /\ mu_lost s = 1 /\
-    forall tr s', ~ In (MCancel 1) tr -> ~ In (MErrReply 1) tr -> run muc_step s tr = Some s' ->
+(* ... and it is in exactly one place: once the room's unavailable presence
+   has been handled, the notification is buffered (and nobody has left yet), or
+   exactly one Leave call has returned with it, or a Leave call that started
+   after the departure discarded it as stale.  For any number of Leave calls. *)
+Theorem C06_muc_leave : forall tr s,
+  run (muc_step true) muc_init tr = Some s -> settled s ->
+  (mu_dtok s = true /\ noleft s) \/
+  (exists l c, nth_error (mu_calls s) l = Some c /\ m_pc c = MRet MLeft /\ m_kind c = MLeave /\
+               forall j c', nth_error (mu_calls s) j = Some c' -> m_pc c' = MRet MLeft -> j = l) \/
+  (mu_drained s = 1 /\ late_leave s).
+Proof. exact muc_leave_run. Qed.
+Print Assumptions C06_muc_leave.
+
+(* A buffered notification can be taken by any Leave call in its select. *)
+Theorem C06_muc_leave_take_enabled : forall s l c,
+  nth_error (mu_calls s) l = Some c -> waiting_leave c = true -> mu_dtok s = true ->
+  muc_step true s (MDepartRecv l) <> None.
+Proof. exact muc_depart_recv_enabled. Qed.
+Print Assumptions C06_muc_leave_take_enabled.
+
+(* The claim of the property for one Leave call at a time: a Leave call that
+   was in progress when the room's unavailable presence was handled has
+   returned, or the notification waits for it. *)
+Theorem C06_muc_single_leave : forall tr s c,
+  run (muc_step true) muc_init tr = Some s -> settled s ->
+  length (mu_calls s) = 2 -> nth_error (mu_calls s) 1 = Some c -> m_pre c = true ->
+  m_pc c = MRet MLeft \/ mu_dtok s = true.
+Proof. exact muc_single_leave_run. Qed.
+Print Assumptions C06_muc_single_leave.
+
+(* The third case of C06_muc_leave is real: with two overlapping Leave calls,
+   the second one, starting after the departure was handled, discards the
+   notification the first one has not taken yet; then only their own contexts
+   or error replies end the two calls. *)
+Theorem C06_muc_leave_drained_by_later_leave :
+  exists s, run (muc_step true) muc_init drained_trace = Some s /\ leave_stuck s 1 /\ leave_stuck s 2 /\
+    mu_drained s = 1 /\
+    forall tr s', ~ In (MCancel 1) tr -> ~ In (MErrReply 1) tr -> run (muc_step true) s tr = Some s' ->
       exists c, nth_error (mu_calls s') 1 = Some c /\ m_pc c = MWait.
-Proof. exact muc_lost_depart. Qed.
-Print Assumptions C06_muc_leave_refuted.
+Proof. exact muc_drained_by_later_leave. Qed.
+Print Assumptions C06_muc_leave_drained_by_later_leave.
 
-Theorem C06_muc_leave_statement_false : ~ C06_muc_leave_statement.
-Proof.
-  intro S. destruct muc_lost_depart as [s [R [(Eh & Eg & c & Hc & Ek & Ep & Ec & Ee) _]]].
-  destruct (S _ s 1 c R Hc Ek Ep Eg Eh); congruence.
-Qed.
-Print Assumptions C06_muc_leave_statement_false.
-
-(* What does hold: the notification is dropped only when no Leave call is in
-   its select at that moment. *)
-Theorem C06_muc_leave_partial : forall s s',
-  muc_step s MDepartLost = Some s' -> forall i c, nth_error (mu_calls s) i = Some c -> waiting_leave c = false.
-Proof. exact muc_depart_lost_only_without_waiter. Qed.
-Print Assumptions C06_muc_leave_partial.
+(* The pinned design (unbuffered depart channel) dropped the notification when
+   the caller had not reached its select; the same schedule is not a schedule
+   of the code, where the notification is kept and then taken. *)
+Theorem C06_muc_leave_pinned_refuted :
+  exists s, run (muc_step false) muc_init lost_depart_trace = Some s /\ leave_stuck s 1 /\ mu_lost s = 1 /\
+    forall tr s', ~ In (MCancel 1) tr -> ~ In (MErrReply 1) tr -> run (muc_step false) s tr = Some s' ->
+      exists c, nth_error (mu_calls s') 1 = Some c /\ m_pc c = MWait.
+Proof. exact muc_lost_depart_pinned. Qed.
+Print Assumptions C06_muc_leave_pinned_refuted.
 
 (* ====================================================================== *)
-(* IBB reader (pinned behaviour)                                           *)
+(* IBB reader                                                              *)
 (* ====================================================================== *)
 
-(* one outcome per Read: results are only appended, one at a time *)
+(* one outcome per Read: results are only appended *)
 Theorem C06_ibb_read_at_most_one_outcome : forall tr s s',
-  run ibb_step s tr = Some s' -> exists more, ib_outs s' = ib_outs s ++ more.
-Proof. exact ibb_outs_run. Qed.
+  run ibbf_step s tr = Some s' -> exists more, fb_outs s' = fb_outs s ++ more.
+Proof. exact ibbf_outs_run. Qed.
 Print Assumptions C06_ibb_read_at_most_one_outcome.
 
-(* bytes are neither lost nor invented: delivered + buffered = arrived *)
+(* bytes are neither lost nor invented: delivered + buffered (+ the packet
+   being appended) = accepted *)
 Theorem C06_ibb_read_conservation : forall tr s,
-  run ibb_step ibb_init tr = Some s ->
-  delivered_bytes (ib_outs s) + ib_buf s = arrived_bytes tr.
-Proof. intros tr s R. pose proof (ibb_conservation_run tr ibb_init s R) as C. cbn in C. exact C. Qed.
+  run ibbf_step ibbf_init tr = Some s ->
+  delivered_bytes (fb_outs s) + fb_buf s + pending_bytes s = accepted_bytes tr.
+Proof. exact ibbf_conservation_run. Qed.
 Print Assumptions C06_ibb_read_conservation.
 
-(* "no permanent stall of a Read while bytes are buffered" *)
-Definition C06_ibb_read_progress_statement : Prop :=
-  forall tr s, run ibb_step ibb_init tr = Some s -> no_lost_wakeup s.
+(* no permanent stall of a Read while bytes are buffered: on every schedule,
+   empty packets, stale tokens and the check-to-wait window included *)
+Theorem C06_ibb_read_progress : forall tr s,
+  run ibbf_step ibbf_init tr = Some s -> f_no_lost_wakeup s.
+Proof. exact ibbf_no_lost_wakeup_run. Qed.
+Print Assumptions C06_ibb_read_progress.
 
-Theorem C06_ibb_read_progress_refuted :
-  exists s, run ibb_step ibb_init lost_wakeup_trace = Some s /\
-    ib_rd s = RdWaiting /\ ib_h s = IHIdle /\ ib_buf s = 3 /\ ib_closed s = false /\ ib_lost s = 1 /\
-    forall l, ibb_enabled s l -> (exists n, l = IData n) \/ l = ICloseRemote \/ l = ICloseLocal.
-Proof. exact ibb_lost_wakeup. Qed.
-Print Assumptions C06_ibb_read_progress_refuted.
+(* ... and a blocked reader is woken by the next accepted packet *)
+Theorem C06_ibb_waiting_reader_is_woken : forall tr s n s1 s2,
+  run ibbf_step ibbf_init tr = Some s -> fb_rd s = FWaiting -> fb_h s = FHIdle ->
+  ibbf_step s (FData n) = Some s1 -> ibbf_step s1 FCheck = Some s2 ->
+  exists s3, ibbf_step s2 FNotify = Some s3 /\ fb_rd s3 = FWoken true.
+Proof. intros tr s n s1 s2 R. exact (ibbf_waiting_is_woken s n s1 s2 (FInv_run tr s R)). Qed.
+Print Assumptions C06_ibb_waiting_reader_is_woken.
 
-Theorem C06_ibb_read_progress_statement_false : ~ C06_ibb_read_progress_statement.
-Proof.
-  intro S. destruct ibb_lost_wakeup as [s [R (A & B & C & _)]].
-  specialize (S _ s R A B). congruence.
-Qed.
-Print Assumptions C06_ibb_read_progress_statement_false.
+(* io.EOF only on a closed stream *)
+Theorem C06_ibb_read_eof : forall tr s,
+  run ibbf_step ibbf_init tr = Some s -> In RdEOF (fb_outs s) -> fb_closed s = true.
+Proof. exact ibbf_eof_only_when_closed_run. Qed.
+Print Assumptions C06_ibb_read_eof.
 
-(* It holds on every schedule in which no data packet is handled between the
-   reader's empty-buffer check and its wait. *)
-Theorem C06_ibb_read_progress_partial : forall tr s,
-  run ibb_step_nw ibb_init tr = Some s -> no_lost_wakeup s.
-Proof. exact ibb_no_lost_wakeup_partial. Qed.
-Print Assumptions C06_ibb_read_progress_partial.
-
-(* "io.EOF only on a closed stream" *)
-Definition C06_ibb_read_eof_statement : Prop :=
-  forall tr s, run ibb_step ibb_init tr = Some s -> In RdEOF (ib_outs s) -> ib_closed s = true.
-
-Theorem C06_ibb_read_eof_refuted :
-  exists s, run ibb_step ibb_init [IRead 4; IWait; IData 0; INotify; IWake 4] = Some s /\
-            ib_outs s = [RdEOF] /\ ib_closed s = false.
-Proof. exact ibb_eof_on_empty_packet. Qed.
-Print Assumptions C06_ibb_read_eof_refuted.
-
-Theorem C06_ibb_read_eof_partial : forall tr s,
-  Forall nonempty_data tr -> run ibb_step ibb_init tr = Some s ->
-  In RdEOF (ib_outs s) -> ib_closed s = true.
-Proof. exact ibb_eof_partial. Qed.
-Print Assumptions C06_ibb_read_eof_partial.
-
-(* "no panic of the serve goroutine" *)
-Definition C06_ibb_no_panic_statement : Prop :=
-  forall tr s, run ibb_step ibb_init tr = Some s -> ib_h s <> IHPanic.
-
-Theorem C06_ibb_no_panic_refuted :
-  exists s, run ibb_step ibb_init [ICloseLocal; IData 3; INotify] = Some s /\ ib_h s = IHPanic.
-Proof. exact ibb_panic_after_local_close. Qed.
-Print Assumptions C06_ibb_no_panic_refuted.
-
-Theorem C06_ibb_no_panic_partial : forall tr s,
-  ~ In ICloseLocal tr -> run ibb_step ibb_init tr = Some s -> ib_h s <> IHPanic.
-Proof. exact ibb_no_panic_partial. Qed.
-Print Assumptions C06_ibb_no_panic_partial.
+(* no panic of the serve goroutine: the handler never sends on the closed
+   channel (the close needs the lock the handler holds) *)
+Theorem C06_ibb_no_panic : forall tr s,
+  run ibbf_step ibbf_init tr = Some s -> fb_h s <> FHPanic.
+Proof. exact ibbf_no_panic_run. Qed.
+Print Assumptions C06_ibb_no_panic.
 
 (* the reader and the handler never get stuck on their own *)
 Theorem C06_ibb_local_progress : forall s,
-  (ib_rd s = RdChecked -> ibb_enabled s IWait) /\
-  (ib_rd s = RdWoken -> ib_h s = IHIdle -> forall cap, ibb_enabled s (IWake (S cap))) /\
-  (ib_h s = IHNotify -> ibb_enabled s INotify).
-Proof. exact ibb_local_progress. Qed.
+  (fb_rd s = FChecked -> ibbf_enabled s FWait) /\
+  (forall o, fb_rd s = FWoken o -> fb_h s = FHIdle -> forall cap, ibbf_enabled s (FWake (S cap))) /\
+  (forall n, fb_h s = FHLocked n -> ibbf_enabled s FCheck) /\
+  (fb_h s = FHNotify -> ibbf_enabled s FNotify).
+Proof. exact ibbf_local_progress. Qed.
 Print Assumptions C06_ibb_local_progress.
+
+(* The pinned design (unbuffered readReady, one test in Read, local Close
+   leaves the stream registered): the three defects that were repaired. *)
+Theorem C06_ibb_read_progress_pinned_refuted :
+  exists s, run ibb_step ibb_init lost_wakeup_trace = Some s /\
+    ib_rd s = RdWaiting /\ ib_h s = IHIdle /\ ib_buf s = 3 /\ ib_closed s = false /\ ib_lost s = 1 /\
+    forall l, ibb_enabled s l -> (exists n, l = IData n) \/ l = ICloseRemote \/ l = ICloseLocal.
+Proof. exact ibb_lost_wakeup_pinned. Qed.
+Print Assumptions C06_ibb_read_progress_pinned_refuted.
+
+Theorem C06_ibb_read_eof_pinned_refuted :
+  exists s, run ibb_step ibb_init [IRead 4; IWait; IData 0; INotify; IWake 4] = Some s /\
+            ib_outs s = [RdEOF] /\ ib_closed s = false.
+Proof. exact ibb_eof_on_empty_packet_pinned. Qed.
+Print Assumptions C06_ibb_read_eof_pinned_refuted.
+
+Theorem C06_ibb_no_panic_pinned_refuted :
+  exists s, run ibb_step ibb_init [ICloseLocal; IData 3; INotify] = Some s /\ ib_h s = IHPanic.
+Proof. exact ibb_panic_after_local_close_pinned. Qed.
+Print Assumptions C06_ibb_no_panic_pinned_refuted.
